@@ -26,3 +26,36 @@ Proof.
   repeat match goal with |- context [c =? ?k] => replace (c =? k) with false by (symmetry; apply Z.eqb_neq; lia) end.
   split; reflexivity.
 Qed.
+
+(* ---------- the time-range tests of TimePrune.v are the regenerated dtypeutils functions ---------- *)
+From Coq Require Import NArith.
+From SigM Require Import TimePrune.
+Open Scope Z_scope.
+
+Lemma leb_of_N a b : (Z.of_N a <=? Z.of_N b) = (a <=? b)%N.
+Proof.
+  destruct (N.leb_spec a b) as [H|H].
+  - apply Z.leb_le. lia.
+  - apply Z.leb_gt. lia.
+Qed.
+
+(* TimeRange.CheckRangeOverLap on uint64 values = TimePrune.overlap (the per-block test of FilterBlocksByTime) *)
+Theorem gen_CheckRangeOverLap_is_overlap : forall tr lo hi,
+  gen_CheckRangeOverLap (Z.of_N (tr_end tr)) (Z.of_N (tr_start tr)) (Z.of_N lo) (Z.of_N hi) = overlap tr lo hi.
+Proof.
+  intros tr lo hi. unfold gen_CheckRangeOverLap, overlap. rewrite !leb_of_N.
+  destruct (_ || _); reflexivity.
+Qed.
+
+(* TimeRange.CheckInRange = TimePrune.ts_in_range (the per-record test) *)
+Theorem gen_CheckInRange_is_ts_in_range : forall tr t,
+  gen_CheckInRange (Z.of_N (tr_end tr)) (Z.of_N (tr_start tr)) (Z.of_N t) = ts_in_range tr t.
+Proof.
+  intros tr t. unfold gen_CheckInRange, ts_in_range. rewrite !leb_of_N.
+  destruct (_ && _); reflexivity.
+Qed.
+
+Theorem gen_time_tests_are_model : forall tr lo hi t,
+  gen_CheckRangeOverLap (Z.of_N (tr_end tr)) (Z.of_N (tr_start tr)) (Z.of_N lo) (Z.of_N hi) = overlap tr lo hi /\
+  gen_CheckInRange (Z.of_N (tr_end tr)) (Z.of_N (tr_start tr)) (Z.of_N t) = ts_in_range tr t.
+Proof. intros; split; [apply gen_CheckRangeOverLap_is_overlap|apply gen_CheckInRange_is_ts_in_range]. Qed.
